@@ -156,7 +156,12 @@ pub fn escaped_rust_name(name: String) -> String {
         | "fn" | "for" | "if" | "impl" | "in" | "let" | "loop" | "match" | "mod" | "move"
         | "mut" | "pub" | "ref" | "return" | "self" | "Self" | "static" | "struct" | "super"
         | "trait" | "true" | "type" | "unsafe" | "use" | "where" | "while" | "async" | "await"
-        | "dyn" | "try" | "macro_rules" | "union" | "'static" => name + "_",
+        | "dyn" | "try" | "macro_rules" | "union" | "'static"
+        // keywords reserved for future use, and `gen` which is reserved as of the 2024 edition
+        | "abstract" | "become" | "box" | "do" | "final" | "gen" | "macro" | "override" | "priv"
+        | "typeof" | "unsized" | "virtual" | "yield"
+        // a lone underscore is a valid GraphQL name but not a Rust identifier
+        | "_" => name + "_",
         _ => name,
     }
 }
